@@ -91,8 +91,26 @@ def hexOut (b : (List Nat)) : String := if b.isEmpty then "-" else hexOfBytes (b
 
 def isJson (k : String) : Bool := k == "json" || k == "ejson"
 
+/-- ops that validate the *specification's readers* against Go's own parsers (correspondence only):
+      jvalid <hex>  RFC 8259 validity            vs encoding/json.Valid
+      pf <hex>      number literal ↦ binary64    vs strconv.ParseFloat
+      ptime <hex>   RFC 3339 ↦ ns since epoch    vs time.Parse(time.RFC3339Nano)
+      pdur <hex>    duration text ↦ ns           vs time.ParseDuration -/
+def specOp (toks : List String) : Option String :=
+  match toks with
+  | ["jvalid", h] => some (if (Json.decode (hexBytes h)).isSome then "1" else "0")
+  | ["pf", h] =>
+    let lit := hexBytes h
+    some (if Json.validNumber lit then hex16 (Num.litToF64 lit) else "invalid")
+  | ["ptime", h] => some (match TimeText.parseRfc3339 (hexBytes h) with | some ns => toString ns | none => "none")
+  | ["pdur", h] => some (match TimeText.parseDuration (hexBytes h) with | some ns => toString ns | none => "none")
+  | _ => none
+
 /-- model side: the same line the Go driver prints -/
 def model (toks : List String) : String :=
+  match specOp toks with
+  | some out => out
+  | none =>
   match parseOp toks with
   | none => "bad-op"
   | some op =>
@@ -149,6 +167,7 @@ def judgeCsvRecs (op : Op) : List (List Value) → List (List (List Nat)) → Na
 
 /-- property oracle on what the implementation printed -/
 def judge (toks : List String) (out : List String) : String :=
+  if (specOp toks).isSome then "ok" else
   match parseOp toks with
   | none => "bad unparsable-op"
   | some op =>
